@@ -105,6 +105,29 @@ def pairUp : List Nat → List Nat
   | hi :: lo :: r => (hi * 65536 + lo) :: pairUp r
   | _ => []
 
+/-- `if offset != 0 { table, err = classdef.Read(p, int64(offset)) }` -/
+def readClassAt (b : Bytes) (off : Nat) : Outcome (Option (List (Nat × Nat))) :=
+  if off != 0 then
+    match ClassDef.read (b.drop off) with
+    | .ok es => .ok (some es)
+    | .err e => .err e
+    | .panic s => .panic s
+  else .ok none
+
+/-- the MarkGlyphSets table at `mgsOff` (0: absent) -/
+def readMgs (b : Bytes) (mgsOff : Nat) : Outcome (Option (List (List Nat))) :=
+  if mgsOff != 0 then
+    match bytesToWords (b.drop mgsOff) with
+    | fmt :: cnt :: ws =>
+      if fmt != 1 then .err eUnsupported
+      else if ws.length < 2 * cnt then .err eIO
+      else match readSets b mgsOff (pairUp (ws.take (2 * cnt))) with
+        | .ok ss => .ok (some ss)
+        | .err e => .err e
+        | .panic s => .panic s
+    | _ => .err eIO
+  else .ok none
+
 /-- `gdef.Read` -/
 def read (b : Bytes) : Outcome Read :=
   match bytesToWords b with
@@ -115,35 +138,14 @@ def read (b : Bytes) : Outcome Read :=
       if rest.length < need then .err eIO
       else
         let mgsOff := if minor ≥ 2 then rest.getD 0 0 else 0
-        let gcR : Outcome (Option (List (Nat × Nat))) :=
-          if gcOff != 0 then
-            match ClassDef.read (b.drop gcOff) with
-            | .ok es => .ok (some es)
+        match readClassAt b gcOff with
+        | .ok gc =>
+          match readClassAt b macOff with
+          | .ok mac =>
+            match readMgs b mgsOff with
+            | .ok ss => .ok ⟨gc, mac, ss⟩
             | .err e => .err e
             | .panic s => .panic s
-          else .ok none
-        match gcR with
-        | .ok gc =>
-          let macR : Outcome (Option (List (Nat × Nat))) :=
-            if macOff != 0 then
-              match ClassDef.read (b.drop macOff) with
-              | .ok es => .ok (some es)
-              | .err e => .err e
-              | .panic s => .panic s
-            else .ok none
-          match macR with
-          | .ok mac =>
-            if mgsOff != 0 then
-              match bytesToWords (b.drop mgsOff) with
-              | fmt :: cnt :: ws =>
-                if fmt != 1 then .err eUnsupported
-                else if ws.length < 2 * cnt then .err eIO
-                else match readSets b mgsOff (pairUp (ws.take (2 * cnt))) with
-                  | .ok ss => .ok ⟨gc, mac, some ss⟩
-                  | .err e => .err e
-                  | .panic s => .panic s
-              | _ => .err eIO
-            else .ok ⟨gc, mac, none⟩
           | .err e => .err e
           | .panic s => .panic s
         | .err e => .err e
